@@ -649,7 +649,8 @@ def run(ctx):
     deep = [te.rotated(s, i % 3) for i, s in enumerate(
         s for s in _roots(te.shapes(3)) if te.depth_of(s) == 3)]
     plan += [
-        ('single', deep, {'values': ('int', 'dict'), 'multi': 0}),
+        ('single', deep, {'values': ('int', 'dict'), 'multi': 0,
+                          'one_key': False}),
         ('chain', d2, {'length': 2, 'values': VALUES_CHAIN,
                        'forms': two_forms}),
         ('chain', [EMPTY] + sorted(set(d1 + narrow2), key=repr),
